@@ -107,4 +107,4 @@ def shrink(c):
 
 def static_obligations(work, tier):
     """rate_t3 and max_rate_t3 are re-translated from /repo's source on every run (integer/rational mode) and proved equal to the model"""
-    return common.kernel_obligations(work, ID, "plotink/ebb_calc.py", ["rate_t3", "max_rate_t3"], mode="zq")
+    return common.kernel_obligations(work, ID, "plotink/ebb_calc.py", ["rate_t3", "max_rate_t3"], mode="zq") + common.rounding_obligation(work, ID, (53,))
